@@ -108,7 +108,9 @@ def r1_metaclass_chain(P, rep, ctx):
               construct="DynJsonEncoderMetaMixin in MRO", message="DynJsonEncoderMetaMixin is no longer in the metaclass MRO of MetadataSchema")
     fi = P.func(f"{enc}.DynJsonEncoderMetaMixin.__init__")
     stores = [st for st in walk_local(fi.node) if isinstance(st, ast.Assign) and any(norm(t) == "self.__json_encoder__" for t in st.targets)]
-    ok = len(stores) == 1 and norm(stores[0].value) == "staticmethod(_dynamize_encoder(self.__json_encoder__))"
+    fsem = F(ctx, fi)
+    sts = fsem.stores("self.__json_encoder__")  # the stored value with single-definition locals expanded
+    ok = len(stores) == 1 and len(sts) == 1 and fsem.x_at(sts[0][0], sts[0][1]) == "staticmethod(_dynamize_encoder(self.__json_encoder__))"
     rep.check(ok, "C12.R1", fi.qual, "metaclass wraps the model's JSON encoder with the dynamic registry lookup", fi.loc(), construct="__json_encoder__ wrapping", message="DynJsonEncoderMetaMixin.__init__ does not install staticmethod(_dynamize_encoder(self.__json_encoder__))")
     dz = P.func(f"{enc}._dynamize_encoder")
     we = dz.nested.get("wrapped_encoder")
@@ -365,6 +367,17 @@ def r4_constants(P, rep, ctx):
     rets_ = [of.x_at(i, v) for i, v in of.returns() if v is not None]
     in_place = bool(upd_) and of.hit_before(of.g.exit, nodes=upd_) and bool(rets_) and all(r == vp for r in rets_)
     fresh_ = bool(rets_) and all(r in (f"{{**{vp}, **cls.__constants__}}", f"dict({vp}, **cls.__constants__)", f"{vp} | cls.__constants__") for r in rets_)
+    # copy-then-update: `ret = dict(values)` / `values.copy()` / `{**values}`; `ret.update(cls.__constants__)`; `return ret`
+    copied_ = False
+    cs_ = of.call_sites("__r.update(cls.__constants__)")
+    rnames = {norm(b["__r"]) for _, _, b in cs_ if isinstance(b.get("__r"), ast.Name)} - {vp}
+    if len(rnames) == 1:
+        rn = next(iter(rnames))
+        dfs_ = [norm(v) for k, v in local_defs(fi).get(rn, []) if v is not None]
+        upd_r = [i for i, _, b in cs_ if norm(b["__r"]) == rn]
+        raw_rets = [norm(v) for _, v in of.returns() if v is not None]
+        copied_ = len(dfs_) == 1 and dfs_[0] in (f"dict({vp})", f"{vp}.copy()", f"{{**{vp}}}") and of.hit_before(of.g.exit, nodes=upd_r) and bool(raw_rets) and all(r == rn for r in raw_rets)
+    fresh_ = fresh_ or copied_
     # nothing may make the update conditional (e.g. "all constant keys already present")
     cond_ = [t for t in of.g.nodes if t.kind == "test"]
     body = [norm(b) for b in fi.node.body if not (isinstance(b, ast.Expr) and isinstance(b.value, ast.Constant))]
